@@ -373,6 +373,7 @@ package storage
 //@   ensures cacheOK(f)
 //@   ensures err != nil ==> result0 == nil
 //@   ensures[hit; C16] old(has(f.cache.cache, offset)) ==> err == nil && result0 == old(centry(f.cache.cache[offset]).val)
+//@   ensures[hit.front; C16] old(has(f.cache.cache, offset)) ==> lruAt(f.cache, 0) == f.cache.cache[offset]
 //@   ensures[miss; C12 C16] !old(has(f.cache.cache, offset)) && err == nil ==> fresh(result0) && (result0.isLeaf ? leafIs(result0) : intIs(result0))
 //@   ensures_assumed[node.inv] err == nil ==> nodeOK(result0) && result0.fileOffset == offset && cached(f, result0) && result0.isLeaf == leafAt(offset)
 //@   ensures_assumed[ghost.fail] err != nil ==> opFailed(f)
@@ -430,7 +431,7 @@ package storage
 //@              (forall i int :: 0 <= i && i < old(cnt(curNode)) ==> lc(curNode,i) == old(lc(curNode,i))) &&
 //@              b.rootOffset == old(b.rootOffset) && !curNode.hasRSib
 //@   ensures[nosplit.inv; C11] result == nil && old(cnt(curNode)) + 1 < maxLeaf ==> leafOK(curNode) && compact(curNode)
-//@   ensures[stamp; C02 C04] result == nil ==> curNode.dirty && curNode.lastLSN == nextLSN
+//@   ensures[stamp; C02 C04 C16] result == nil ==> curNode.dirty && curNode.lastLSN == nextLSN
 //@   ensures[split.np; C01 C11; witness np=newPg] result == nil && old(cnt(curNode)) + 1 == maxLeaf ==> exists np *btreeNode ::
 //@              fresh(np) && np.isLeaf && cnt(curNode) == 4 && cnt(np) == 5 && slotsOK(curNode) && slotsOK(np) && compact(np)
 //@   ensures[split.kept; C01; witness np=newPg] result == nil && old(cnt(curNode)) + 1 == maxLeaf ==>
@@ -557,6 +558,15 @@ package storage
 //@   ensures err == nil ==> result0 != nil && fresh(result0) && result0.autoFlushCache == autoFlushCache && cacheOK(result0) &&
 //@              openStores == old(openStores) + (autoFlushCache ? 1 : 0) && fresh(result0.file) && fpos(result0.file) == 0
 
+// The flush timer goroutine: every tick it runs a complete flush through flushPages (which takes the exclusive lock itself) and
+// touches no page, cache or header state on its own. It starts without a lock (its spawn site is in trusted newFileStore).
+//@ func newFileStore$1()
+//@   props C13
+//@   requires fs != nil && fs.ticker != nil && cacheOK(fs) && txn == 0
+//@   modifies txn, all(btreeNode.dirty), @cacheState, storeState, written, fdata(fs.file), fsize(fs.file)
+//@   ensures[unlock; C13] txn == 0
+//@   loop 1 invariant [unlocked; C13] fs != nil && fs.ticker != nil && cacheOK(fs) && txn == 0
+
 //@ func (f *fileStore) abandon()
 //@   props C17
 //@   trusted
@@ -569,9 +579,12 @@ package storage
 //@   modifies f.lastKey, f.pageTableRoot, f.nextFreeOffset, f._nextLSN, fpos(f.file)
 //@   ensures[header; C12 C17] result == nil && old(fpos(f.file)) == 0 ==> headerIs(f)
 
+// dbExists(db): the data file of database db exists (what os.Stat reports; the file system is not modelled)
+//@ spec abstract dbExists(db string) bool
 //@ func dbFilePath(db string) (string, bool, error)
 //@   props C17
 //@   pure
+//@   ensures_assumed[exists.def] db != "" && err == nil ==> result1 == dbExists(db)
 //@   ensures[nodb] db == "" ==> err == ErrDBNotSelected
 //@   ensures[path; C17] db != "" ==> result0 == pathJoin3("data", strLower(db), "tbl")
 
@@ -594,11 +607,26 @@ package storage
 //@   ensures[err; C17] err != nil ==> result0 == nil && openStores == old(openStores)
 //@   ensures[ok; C17] err == nil ==> result0 != nil && fresh(result0) && openStores == old(openStores) + 1 && result0.fs != nil && result0.wal != nil && result0.wal.reader != nil
 
-//@ func CreateDB(dbName string) error
+//@ func makeDBDir(db string) error
 //@   props C17
 //@   trusted
 //@   modifies storeState
+
+// CreateDB builds the two catalog tables in a store that no statement can see yet. It takes no lock although newFileStore has
+// already started the flush timer of that store: the lock preconditions of its callees are assumed (A-CREATE), not proved.
+//@ func CreateDB(dbName string) error
+//@   props C17
+//@   requires txn == 0
+//@   waivepre (*fileStore).save.lock A-CREATE: the flush timer of the store under construction does not fire within CreateDB, which holds no lock (not provable: newFileStore starts the timer before the catalog is built)
+//@   waivepre (*RelationService).createPage.lock A-CREATE
+//@   waivepre (*fileStore).setPageTableRoot.1 A-CREATE
+//@   waivepre (*RelationService).insertPageTable.lock A-CREATE
+//@   waivepre (*RelationService).insertSchemaTable.lock A-CREATE
+//@   modifies storeState, openStores, txn, @treeState, @cacheState, written, fdata, fsize, catRoot
 //@   allowpanic explicit
+//@   ensures[exists; C17] dbName != "" && dbExists(dbName) ==> result != nil && openStores == old(openStores)
+//@   ensures[ok.closed; C17] result == nil ==> openStores == old(openStores)
+//@   ensures[unlock; C13] txn == 0
 
 //@ func ShowDB() ([]*Row, []*Field, error)
 //@   props C17
@@ -930,7 +958,7 @@ package storage
 //@   modifies cell(walLogs), rs.fs._nextLSN, all(leafCell.valueBytes), all(leafCell.valueSize), all(btreeNode.dirty), all(btreeNode.lastLSN), storeState, elems(walLogs)
 //@   ensures[L2; C02 C04] (forall c *leafCell :: c.valueBytes == old(c.valueBytes) && c.valueSize == old(c.valueSize)) ||
 //@              (cell.pg.dirty && cell.pg.lastLSN == old(rs.fs._nextLSN) && rs.fs._nextLSN == old(rs.fs._nextLSN) + 1)
-//@   ensures[L3; C02 C04] len(walLogs) == old(len(walLogs)) || (len(walLogs) == old(len(walLogs)) + 1 &&
+//@   ensures[L3; C02 C03 C04] len(walLogs) == old(len(walLogs)) || (len(walLogs) == old(len(walLogs)) + 1 &&
 //@              walLogs[len(walLogs)-1].LSN == old(rs.fs._nextLSN) && walLogs[len(walLogs)-1].pageID == cell.pg.fileOffset &&
 //@              walLogs[len(walLogs)-1].cellID == cell.key && walLogs[len(walLogs)-1].WALOp == OpUpdate)
 //@   ensures[redo.single; C04] forall n *btreeNode :: n != cell.pg ==> n.lastLSN == old(n.lastLSN) && n.dirty == old(n.dirty)
@@ -957,7 +985,7 @@ package storage
 //@   modifies cell(walLogs), cell(found), rs.fs._nextLSN, all(leafCell.valueBytes), all(leafCell.valueSize), all(btreeNode.dirty), all(btreeNode.lastLSN), storeState, elems(walLogs)
 //@   ensures[L2; C02 C04] (forall c *leafCell :: c.valueBytes == old(c.valueBytes) && c.valueSize == old(c.valueSize)) ||
 //@              (cell.pg.dirty && cell.pg.lastLSN == old(rs.fs._nextLSN) && rs.fs._nextLSN == old(rs.fs._nextLSN) + 1)
-//@   ensures[L3; C02 C04] len(walLogs) == old(len(walLogs)) || (len(walLogs) == old(len(walLogs)) + 1 &&
+//@   ensures[L3; C02 C03 C04] len(walLogs) == old(len(walLogs)) || (len(walLogs) == old(len(walLogs)) + 1 &&
 //@              walLogs[len(walLogs)-1].LSN == old(rs.fs._nextLSN) && walLogs[len(walLogs)-1].pageID == cell.pg.fileOffset &&
 //@              walLogs[len(walLogs)-1].cellID == cell.key && walLogs[len(walLogs)-1].WALOp == OpUpdate)
 //@   ensures[redo.single; C04] forall n *btreeNode :: n != cell.pg ==> n.lastLSN == old(n.lastLSN) && n.dirty == old(n.dirty)
@@ -987,8 +1015,9 @@ package storage
 //@   ensures[L1; C02] err == nil ==> rs.fs._nextLSN == old(rs.fs._nextLSN) + len(result0)
 //@   ensures[L1.mono; C02] rs.fs._nextLSN >= old(rs.fs._nextLSN) && rs.fs.lastKey >= old(rs.fs.lastKey)
 //@   ensures[L3.len; C02] err == nil ==> len(result0) >= 1
-//@   ensures[L3.lsn; C02] err == nil ==> result0[0].LSN == old(rs.fs._nextLSN)
-//@   ensures[L3.op; C02] err == nil ==> result0[0].WALOp == OpInsert && result0[0].cellID == old(rs.fs.lastKey) + 1
+//@   ensures[L3.lsn; C02 C03] err == nil ==> result0[0].LSN == old(rs.fs._nextLSN)
+//@   ensures[L3.op; C02 C03] err == nil ==> result0[0].WALOp == OpInsert && result0[0].cellID == old(rs.fs.lastKey) + 1
+//@   ensures[L3.page; C02 C03] err == nil ==> result0[0].pageID == old(catRoot(tblKey(tableName)))
 //@   ensures[err.early; C14] err != nil && rs.fs.lastKey == old(rs.fs.lastKey) ==> len(result0) == 0 && rs.fs._nextLSN == old(rs.fs._nextLSN)
 
 // ---- recovery (C02 C03 C04) ----
@@ -1028,7 +1057,8 @@ package storage
 
 //@ func (f *fileStore) save() error
 //@   props C04 C12 C13 C17
-//@   requires fsExcl(f) && cacheOK(f)
+//@   requires[lock] fsExcl(f)
+//@   requires cacheOK(f)
 //@   modifies storeState, fdata(f.file), fsize(f.file)
 //@   ensures[header; C12 C17] result == nil ==> headerIs(f) && fsize(f.file) >= 28
 //@   ensures[pages.kept; C12] forall k int :: k >= 28 ==> fdata(f.file, k) == old(fdata(f.file, k))
@@ -1050,7 +1080,8 @@ package storage
 
 //@ func (rs *RelationService) createPage() (*btreeNode, error)
 //@   props C01 C13
-//@   requires rsOK(rs) && fsLocked(rs.fs)
+//@   requires[lock] fsLocked(rs.fs)
+//@   requires rsOK(rs)
 //@   modifies rs.fs.nextFreeOffset, @cacheState
 //@   ensures[rs] rsOK(rs)
 //@   ensures[page] result0 != nil && fresh(result0) && leafOK(result0) && cnt(result0) == 0 && result0.fileOffset == old(rs.fs.nextFreeOffset)
@@ -1058,14 +1089,16 @@ package storage
 
 //@ func (rs *RelationService) insertPageTable(node *btreeNode, tableName string) error
 //@   props C01 C13
-//@   requires rsOK(rs) && fsLocked(rs.fs) && node != nil
+//@   requires[lock] fsLocked(rs.fs)
+//@   requires rsOK(rs) && node != nil
 //@   modifies @treeState, @cacheState, storeState, rs.fs._nextLSN, rs.fs.lastKey, rs.fs.nextFreeOffset, rs.fs.pageTableRoot
 //@   ensures[rs] rsOK(rs)
 //@   ensures[root; C01; witness t=bt] result == nil ==> exists t *BTree :: fresh(t) && rs.fs.pageTableRoot == t.rootOffset
 
 //@ func (rs *RelationService) insertSchemaTable(r *Relation, tableName string) error
 //@   props C01 C13
-//@   requires rsOK(rs) && fsLocked(rs.fs) && r != nil
+//@   requires[lock] fsLocked(rs.fs)
+//@   requires rsOK(rs) && r != nil
 //@   modifies @treeState, @cacheState, storeState, rs.fs._nextLSN, rs.fs.lastKey, rs.fs.nextFreeOffset, catRoot
 //@   ensures[rs] rsOK(rs)
 //@   loop 1 invariant rsOK(rs)
@@ -1093,7 +1126,7 @@ package storage
 //@   modifies all(leafCell.pg), all(leafCell.deleted), all(btreeNode.dirty), all(btreeNode.lastLSN), @cacheState, storeState, rs.fs._nextLSN
 //@   ensures[rs] rsOK(rs) && txn == 1
 //@   ensures[L1; C02] rs.fs._nextLSN == old(rs.fs._nextLSN) + len(result0)
-//@   ensures[L3; C02] err == nil ==> len(result0) == 1 && result0[0].LSN == old(rs.fs._nextLSN) && result0[0].cellID == rowID && result0[0].WALOp == OpDelete
+//@   ensures[L3; C02 C03] err == nil ==> len(result0) == 1 && result0[0].LSN == old(rs.fs._nextLSN) && result0[0].cellID == rowID && result0[0].WALOp == OpDelete
 //@   ensures[redo.page; C02 C04] err == nil ==> forall n *btreeNode :: n.lastLSN != old(n.lastLSN) || n.dirty != old(n.dirty) ==> n.fileOffset == result0[0].pageID && n.lastLSN == result0[0].LSN && n.dirty
 //@   ensures[err; C14] err != nil ==> len(result0) == 0 && rs.fs._nextLSN == old(rs.fs._nextLSN)
 //@   ensures[err.frame; C14] err != nil ==> forall c *leafCell :: c.deleted == old(c.deleted)
